@@ -20,6 +20,10 @@ uint8_t nondet_u8(void); uint32_t nondet_u32(void); uint64_t nondet_u64(void); i
 #ifdef WITNESS
 #define CHECK(c, msg) ((void)0)
 #define WITNESS_POINT() __CPROVER_assert(0, "WITNESS: this point is reachable (must FAIL)")
+#elif defined(WITNESS_INLINE)
+/* single run: all CHECKs active AND the reachability witness; the driver expects exactly the witness to FAIL */
+#define CHECK(c, msg) __CPROVER_assert(c, msg)
+#define WITNESS_POINT() __CPROVER_assert(0, "WITNESS: this point is reachable (must FAIL)")
 #else
 #define CHECK(c, msg) __CPROVER_assert(c, msg)
 #define WITNESS_POINT() ((void)0)
